@@ -371,6 +371,7 @@ func (p *typeCaseStmt) Then(cb *CodeBuilder, src ...ast.Node) {
 			typ = pss.xType
 		}
 		name := types.NewParam(token.NoPos, cb.pkg.Types, pss.name, typ)
+		cb.pkg.useName(pss.name)
 		cb.current.scope.Insert(name)
 	}
 }
@@ -527,6 +528,7 @@ func (p *forRangeStmt) RangeAssignThen(cb *CodeBuilder, pos token.Pos) {
 			if name == "_" {
 				continue
 			}
+			pkg.useName(name)
 			if scope.Insert(types.NewVar(token.NoPos, pkg.Types, name, typs[i])) != nil {
 				log.Panicln("TODO: variable already defined -", name)
 			}
